@@ -198,6 +198,9 @@ def cost_forms() -> list[dict]:
         (f'{n1} # {n2} {cur}', {'number_per': n1, 'number_total': n2, 'currency': cur}),
         (f'{n1} # {cur}', {'number_per': n1, 'currency': cur}),
         (f'# {n2} {cur}', {'number_total': n2, 'currency': cur}),
+        # number and currency as two separate components (legal for the grammar; each is read from wherever it stands)
+        (f'{n1}, {cur}', {'num': n1, 'currency': cur}),
+        (f'{cur}, {n1}', {'num': n1, 'currency': cur}),
     ]
     extras = [('', {}), ('2000-01-02', {'date': '2000-01-02'}), ('"lot"', {'label': 'lot'}), ('*', {'merge': True}),
               ('2000-01-02, "lot", *', {'date': '2000-01-02', 'label': 'lot', 'merge': True})]
